@@ -815,6 +815,11 @@ func (h *histRun) exec() {
 			}
 		}
 		h.obs = append(h.obs, ob)
+		if ob.Class == "panic" {
+			// a library call that panicked may have left the log locked or half updated: the history ends here
+			// (the panic itself has been recorded above)
+			break
+		}
 	}
 	h.nEntries = len(w.created)
 	if hasTies(w.created) {
